@@ -71,12 +71,12 @@ type World struct {
 	back  chan struct{}
 	Seq   uint64
 	// Preempt makes every cooperative lock acquisition a scheduling point.
-	Preempt  bool
+	Preempt bool
 	// PreemptEvery thins the scheduling points out: only every n-th lock operation yields (contended ones always park).
 	PreemptEvery int
 	lockOps      uint64
-	GoPolicy func(site string) GoPolicy
-	GoSeen   map[string]int
+	GoPolicy     func(site string) GoPolicy
+	GoSeen       map[string]int
 	// OnTaskPanic decides what a panic escaping a task means. Return true if handled.
 	OnTaskPanic func(t *Task, v interface{}, stack string) bool
 	MaxSwitches uint64
@@ -215,7 +215,10 @@ func (w *World) Install() {
 		w.SpawnAfter(d, w.CurCtx(), "afterfunc", f)
 		return t
 	}
-	verifseam.NewTicker = func(d time.Duration) *time.Ticker { w.Stats["ticker_never"]++; return time.NewTicker(1000000 * time.Hour) }
+	verifseam.NewTicker = func(d time.Duration) *time.Ticker {
+		w.Stats["ticker_never"]++
+		return time.NewTicker(1000000 * time.Hour)
+	}
 	verifseam.Tick = func(d time.Duration) <-chan time.Time { return make(chan time.Time) }
 	verifseam.Go = w.goHook
 	verifseam.Yield = func(site string) { w.YieldAt(site) }
